@@ -6,7 +6,7 @@ replace / replace-uses machinery of LinearIR); both modules run on the real VM o
 symbolic inputs inside one exploration; z3 decides per joint path that no input makes return
 value, globals or the kind of failure differ.  Accept/reject must agree (concrete)."""
 from .. import core
-from ..gen import core1, f1, f2, f3, f4
+from ..gen import core1, f1, f2, f3, f4, f4r
 from ..nslref import joint
 from ..nslref.parse import parse
 from . import famcheck, diffcheck
@@ -25,6 +25,7 @@ def family(tier, seed):
     items += [it for it in f4items if not any(t.startswith("trigger:") for t in it.tags)]
     items += f1.generate(seed, 120 if tier == "quick" else 2000, depth=3, nmax=3)
     items += f3.random_calls(seed, 40 if tier == "quick" else 600)
+    items += f4r.generate(seed, 60 if tier == "quick" else 800)
     return items
 
 
